@@ -10,4 +10,10 @@ var props = map[string]propCfg{
 	"C01": {Quick: 4000, Thorough: 120000, QuickSec: 60, ThoroughSec: 900,
 		Rule: "rapid-generated regex-assembly programs (entries from an RE2∩PCRE grammar, markers, store/load, nested assemble and cmdline blocks, prefix/suffix, i/s flags, definitions, include files) compiled by the CLI and compared with the plain-reading reference by exact language equivalence (product determinisation); non-trivial = ≥2 entries and at least one of marker/nested block/load/prefix/suffix/flag/cmdline/include/definition reference, decided Equal exactly (not by cap); distinct = canonical text of program+files",
 		Assumptions: baseAssumptions},
+	"C02": {Quick: 6000, Thorough: 150000, QuickSec: 60, ThoroughSec: 600,
+		Rule: "C01's program generator re-weighted so that half of all atoms come from the quoting/escaping stress set (quotes, backslashes, \\x5c, \\x22, raw and escaped control / non-ASCII runes, \\s classes, ^ $ . next to group boundaries), all flag spellings; pure predicates on stdout of every compiling program; non-trivial = the source contains at least one stress atom; distinct = canonical program text",
+		Assumptions: baseAssumptions},
+	"C19": {Quick: 30000, Thorough: 400000, QuickSec: 60, ThoroughSec: 600,
+		Rule: "structure-aware fuzzing: 80% valid generated programs (with includes, definitions, blocks, layout noise) whose entries get hostile atoms spliced in (escaped parentheses followed by flag-like text, unbalanced groups, broken escapes, raw control/invalid UTF-8 bytes, brace fragments), 20% raw token soup over directive fragments; on stdin and in include files; oracle: terminates (10 s, re-run twice at 30 s), exit 0/1 or deliberate-panic exit 2, no Go runtime fault text on stderr; non-trivial = reached the clean-up passes (exit 0 with output) or contains a hostile token; distinct = stdin+files",
+		Assumptions: baseAssumptions},
 }
